@@ -1,7 +1,8 @@
 (* C02 — expression evaluation follows the Cedar language semantics.
    Property theorems only.  `eval sl q es` is the model evaluator (model/Eval.v), transcribed
    from evaluator.rs; these theorems are the language definition in readable form. *)
-From Cedar Require Import Eval EvalProofs.
+From Coq Require Import Permutation.
+From Cedar Require Import Eval EvalProofs ValueProofs.
 
 (* Short-circuiting: an error (or anything else) in a skipped operand never surfaces *)
 Theorem c02_and_short_circuit :
@@ -168,6 +169,62 @@ Proof.
 Qed.
 Print Assumptions c02_like.
 
+(* == is an equivalence relation on values ... *)
+Theorem c02_eq_equivalence :
+  (forall v, value_eqb v v = true) /\
+  (forall a b, value_eqb a b = true -> value_eqb b a = true) /\
+  (forall a b c, value_eqb a b = true -> value_eqb b c = true -> value_eqb a c = true).
+Proof. exact (conj value_eqb_refl (conj value_eqb_sym value_eqb_trans)). Qed.
+Print Assumptions c02_eq_equivalence.
+
+(* ... under which sets are duplicate-free and order-insensitive: two sets are == exactly when
+   they have the same members; permuting or duplicating elements is unobservable *)
+Theorem c02_set_eq_same_members :
+  forall xs ys, value_eqb (VSet xs) (VSet ys) = true <-> forall v, set_mem v xs = set_mem v ys.
+Proof. exact set_eq_iff_same_members. Qed.
+Print Assumptions c02_set_eq_same_members.
+
+Theorem c02_set_order_insensitive :
+  forall xs ys, Permutation xs ys -> value_eqb (VSet xs) (VSet ys) = true.
+Proof. exact set_order_insensitive. Qed.
+Print Assumptions c02_set_order_insensitive.
+
+Theorem c02_set_duplicate_insensitive :
+  forall x xs, value_eqb (VSet (x :: x :: xs)) (VSet (x :: xs)) = true.
+Proof. exact set_duplicate_insensitive. Qed.
+Print Assumptions c02_set_duplicate_insensitive.
+
+(* contains / containsAll / containsAny / isEmpty = membership / inclusion / overlap / emptiness *)
+Theorem c02_set_operations :
+  forall sl q es a b s t v,
+    eval sl q es a = Ok (VSet s) ->
+    (eval sl q es b = Ok v -> eval sl q es (BinApp BContains a b) = Ok (VBool (set_mem v s))) /\
+    (eval sl q es b = Ok (VSet t) ->
+       exists r, eval sl q es (BinApp BContainsAll a b) = Ok (VBool r) /\
+                 (r = true <-> forall x, set_mem x t = true -> set_mem x s = true)) /\
+    (eval sl q es b = Ok (VSet t) ->
+       exists r, eval sl q es (BinApp BContainsAny a b) = Ok (VBool r) /\
+                 (r = true <-> exists x, set_mem x s = true /\ set_mem x t = true)) /\
+    eval sl q es (UnApp UIsEmpty a) = Ok (VBool (match s with [] => true | _ => false end)).
+Proof.
+  intros sl q es a b s t v Ha; repeat split.
+  - intros Hb; cbn; rewrite Ha, Hb; reflexivity.
+  - intros Hb; exists (set_subset t s); split; [cbn; rewrite Ha, Hb; reflexivity | apply set_subset_spec].
+  - intros Hb; exists (negb (set_disjoint s t)); split; [cbn; rewrite Ha, Hb; reflexivity|].
+    rewrite Bool.negb_true_iff. apply set_disjoint_spec.
+  - cbn; rewrite Ha; reflexivity.
+Qed.
+Print Assumptions c02_set_operations.
+
+(* set-valued operations cannot distinguish == sets *)
+Theorem c02_set_mem_respects_eq :
+  forall v v' xs ys,
+    value_eqb v v' = true -> value_eqb (VSet xs) (VSet ys) = true -> set_mem v xs = set_mem v' ys.
+Proof.
+  intros v v' xs ys H1 H2. rewrite (set_mem_respects v v' xs H1). apply set_mem_respects_set; assumption.
+Qed.
+Print Assumptions c02_set_mem_respects_eq.
+
 (* Non-vacuity examples *)
 Example c02_example_short_circuit :
   let u := mkUid [[65%N]] [97%N] in
@@ -180,3 +237,7 @@ Example c02_example_overflow :
 Proof. reflexivity. Qed.
 Example c02_example_like : Matches [PChar 97%N; PStar; PChar 98%N] [97%N; 120%N; 121%N; 98%N].
 Proof. apply wildcard_iff; reflexivity. Qed.
+Example c02_example_sets :
+  value_eqb (VSet [VLong 1; VLong 2; VLong 1]) (VSet [VLong 2; VLong 1]) = true /\
+  value_eqb (VSet [VLong 1]) (VSet [VLong 1; VLong 3]) = false.
+Proof. split; reflexivity. Qed.
